@@ -164,6 +164,9 @@ def find_paths(directory, pattern, ignore=None, sort=True):
     for incl in as_tuple(pattern):
         files += [f for f in directory.rglob(incl) if f not in excludes]
 
+    # A file may be matched by more than one pattern
+    files = list(dict.fromkeys(files))
+
     return sorted(files) if sort else files
 
 
